@@ -533,37 +533,112 @@ func byteSequences(n int, emit func([]byte)) {
 	}
 }
 
-// shortSequences enumerates all sequences of length 1..n over one representative per class of alg
-// (thorough tier)
-func shortSequences(alg byte, n int, emit func([]byte)) {
-	var reps []rune
-	for _, cl := range algClasses[alg] {
-		rs := repsFor(alg, cl)
-		if len(rs) > 0 {
-			reps = append(reps, rs[0])
+// smallAlphabet: the symbols of the small-scope exhaustive streams for one algorithm. For every class of
+// alg: its first representative (the lowest code point, i.e. the ASCII member where the class has one) and,
+// where that one is ASCII, also the first non-ASCII representative - fast paths keyed on "ASCII letter",
+// "single byte" and the like treat the two differently; for lines the signatures that matter beyond the
+// class (East Asian width of OP/CP, unassigned Extended_Pictographic, an SA mark); U+FFFD; and one
+// ill-formed byte.
+func smallAlphabet(alg byte, full bool) [][]byte {
+	var syms [][]byte
+	seen := map[rune]bool{}
+	add := func(r rune) {
+		if !seen[r] {
+			seen[r] = true
+			syms = append(syms, appendRune(nil, r))
 		}
 	}
-	if alg == 'L' {
-		// signatures that matter for lines beyond the class: ea of OP/CP, ExtPict&Cn, SA marks
-		reps = append(reps, 0xFF08, 0xFF09, 0x1F02C, 0x0E31)
+	for _, cl := range algClasses[alg] {
+		rs := repsFor(alg, cl)
+		if len(rs) == 0 {
+			continue
+		}
+		add(rs[0])
+		if full && rs[0] < 0x80 {
+			for _, r := range rs[1:] {
+				if r >= 0x80 {
+					add(r)
+					break
+				}
+			}
+		}
 	}
+	switch alg {
+	case 'L':
+		for _, r := range []rune{0xFF08, 0xFF09, 0x1F02C, 0x0E31, 0x1F3FB} {
+			add(r)
+		}
+	case 'W':
+		for _, r := range []rune{0x2139, 0x231A, 'a', '1'} {
+			add(r)
+		}
+	case 'G':
+		for _, r := range []rune{0xFE0F, 0x1F3FB, 'a'} {
+			add(r)
+		}
+	case 'S':
+		for _, r := range []rune{'a', 'A', '1', 0x1F3FB} {
+			add(r)
+		}
+	}
+	add(0xFFFD)
+	syms = append(syms, []byte{0xFF})
+	return syms
+}
+
+// smallScopeLen: the lengths up to which the small-scope streams are exhaustive: over the core alphabet
+// and over the full alphabet
+func smallScopeLen(alg byte, thorough bool) (n, nFull int) {
+	n = map[byte]int{'G': 4, 'W': 4, 'S': 4, 'L': 3}[alg]
+	nFull = n - 1
+	if thorough {
+		nFull = n
+		if alg == 'G' {
+			n = 5
+		}
+	}
+	return
+}
+
+// shortSequences enumerates ALL sequences of length 1..n over the core alphabet of alg (one member per
+// class, the ASCII one where there is one, plus the extra symbols) and ALL sequences of length 1..nFull
+// over the full alphabet (also a non-ASCII member of every class that has an ASCII one)
+func shortSequences(alg byte, n, nFull int, emit func([]byte)) {
+	if !smallScope {
+		return
+	}
+	if nFull > 0 {
+		shortSeqOver(smallAlphabet(alg, true), 1, nFull, emit)
+	}
+	lo := 1
+	if nFull >= n {
+		return
+	}
+	if nFull > 0 {
+		// lengths 1..nFull over the core alphabet are a subset of the above
+		lo = nFull + 1
+	}
+	shortSeqOver(smallAlphabet(alg, false), lo, n, emit)
+}
+
+func shortSeqOver(syms [][]byte, lo, n int, emit func([]byte)) {
 	idx := make([]int, n)
 	var rec func(d, l int)
 	rec = func(d, l int) {
 		if d == l {
 			var b []byte
 			for i := 0; i < l; i++ {
-				b = appendRune(b, reps[idx[i]])
+				b = append(b, syms[idx[i]]...)
 			}
 			emit(b)
 			return
 		}
-		for i := range reps {
+		for i := range syms {
 			idx[d] = i
 			rec(d+1, l)
 		}
 	}
-	for l := 1; l <= n; l++ {
+	for l := lo; l <= n; l++ {
 		rec(0, l)
 	}
 }
